@@ -156,6 +156,9 @@ pub struct MCOptimiser {
 impl MCOptimiser {
     #[inline]
     fn energy_surface(&self, new: f64, old: f64, kt: f64) -> f64 {
+        // A temperature of negative zero is still zero, dividing by it would flip the sign of the
+        // exponent and accept every worse score.
+        let kt = if kt == 0. { 0. } else { kt };
         f64::min(f64::exp((new - old) / kt), 1.)
     }
 
